@@ -23,6 +23,7 @@ func knownExclusions() map[string]bool {
 		"break-after-yield-in-switch": true,
 		"array-range-live-not-copied": true,
 		"cogen-external-test-eta-not-idempotent": true,
+		"local-shadows-element-type":             true,
 	}
 }
 
@@ -279,6 +280,9 @@ func init() {
 		table := blockEndTable()
 		for i, sh := range consumerShapes {
 			table = append(table, mkShapeProgram("S"+itoa(1000+i), sh))
+		}
+		if !knownExclusions()["local-shadows-element-type"] {
+			table = append(table, mkShapeProgram("K9001", knownFindingShapes["local-shadows-element-type"]))
 		}
 		table = append(table, loopFormTable()...)
 		table = append(table, loopRerunTable()...)
